@@ -162,6 +162,59 @@ def _parse_tla_value(s):
     return val()
 
 
+def printed_tuples(out):
+    """All tuples TLC printed with PrintT.  Long values are pretty-printed over several lines
+    ('<< "FAIL",' newline ...): collect text from a line starting with '<<' until the brackets
+    balance (strings skipped), then parse."""
+    res = []
+    lines = out.split("\n")
+    i = 0
+    while i < len(lines):
+        ln = lines[i]
+        if not ln.startswith("<<"):
+            i += 1
+            continue
+        buf = []
+        depth = 0
+        instr = False
+        closed = False
+        j = i
+        while j < len(lines) and not closed:
+            t = lines[j]
+            k = 0
+            while k < len(t):
+                ch = t[k]
+                if instr:
+                    if ch == "\\":
+                        k += 1
+                    elif ch == '"':
+                        instr = False
+                elif ch == '"':
+                    instr = True
+                elif t.startswith("<<", k):
+                    depth += 1
+                    k += 1
+                elif t.startswith(">>", k):
+                    depth -= 1
+                    k += 1
+                elif ch in "{[(":
+                    depth += 1
+                elif ch in "}])":
+                    depth -= 1
+                k += 1
+            buf.append(t)
+            j += 1
+            if depth <= 0 and not instr:
+                closed = True
+        text = " ".join(x.strip() for x in buf)
+        try:
+            res.append(_parse_tla_value(text))
+        except Exception:
+            pass
+        i = j
+    return res
+
+
 def _judge_one(path, module, cfgname, timeout):
     md = _metadir()
     args = ["-workers", "1", "-metadir", md, "-noGenerateSpecTE", "-config", os.path.join(SPEC, "mc", cfgname),
@@ -172,30 +225,11 @@ def _judge_one(path, module, cfgname, timeout):
         shutil.rmtree(md, ignore_errors=True)
     fails = {}
     done = None
-    # PrintT output may span lines for long values: join continuation lines
-    buf = None
-    lines = out.split("\n")
-    joined = []
-    for ln in lines:
-        if ln.startswith("<<"):
-            if buf is not None:
-                joined.append(buf)
-            buf = ln
-        elif buf is not None and (ln.startswith(" ") or ln.startswith("  ")) and not ln.startswith("  |"):
-            buf += " " + ln.strip()
-        else:
-            if buf is not None:
-                joined.append(buf)
-                buf = None
-            joined.append(ln)
-    if buf is not None:
-        joined.append(buf)
-    for ln in joined:
-        if ln.startswith('<<"FAIL"'):
-            v = _parse_tla_value(ln)
+    for v in printed_tuples(out):
+        if v and v[0] == "FAIL":
             fails[v[1]] = sorted(v[2])
-        elif ln.startswith('<<"DONE"'):
-            done = _parse_tla_value(ln)[1]
+        elif v and v[0] == "DONE":
+            done = v[1]
     if done is None:
         raise MachineryError("Judge run did not complete on %s (rc=%s):\n%s" % (path, rc, out[-4000:]))
     return fails, done, wall
@@ -231,8 +265,10 @@ def generate_behaviours(module, cfg, outpath, timeout=1800, heap="8g"):
     seen = set()
     with open(outpath, "w") as f:
         for ln in out.split("\n"):
-            if ln.startswith('<<"TRACE"'):
-                js = _parse_tla_value(ln)[1]
+            pass
+        for v in printed_tuples(out):
+            if v and v[0] == "TRACE":
+                js = v[1]
                 if js in seen:
                     continue
                 seen.add(js)
